@@ -166,3 +166,25 @@ Definition tag_all (r : nat) (t : list rev_) : list (nat * rev_) := map (pair r)
 
 Definition check_log (runs : list nat) (segs : list (nat * list rev_)) : nat :=
   if hdisc_runs runs [] (concat (map (fun s => tag_all (fst s) (snd s)) segs)) then 0 else 1.
+
+(* the model predicts (c14_noninterference) that a disciplined run issues the SAME events
+   whatever store it starts from: compare the trace recorded inside a batch with the trace of
+   the same run recorded alone in a fresh process *)
+Definition ev_eqb (a b : rev_) : bool :=
+  match a, b with
+  | ERd c v, ERd c' v' => N.eqb c c' && N.eqb v v'
+  | EWr c v, EWr c' v' => N.eqb c c' && N.eqb v v'
+  | _, _ => false
+  end.
+Fixpoint same_trace (a b : list rev_) : bool :=
+  match a, b with
+  | [], [] => true
+  | x :: a', y :: b' => ev_eqb x y && same_trace a' b'
+  | _, _ => false
+  end.
+
+(* pre / post: conservative events for shared state the proxy cannot see (found by the
+   snapshot diff): a write at the end of the run that changed it, a read at the start of
+   every later run.  code = check_run + 4 when the batch trace differs from the trace alone *)
+Definition check_case (pre tr post alone : list rev_) : nat :=
+  check_run (pre ++ tr ++ post) + (if same_trace tr alone then 0 else 4).
